@@ -135,6 +135,13 @@ impl<'a> PGen<'a> {
             4 => "\"x\"".into(),
             5 => "@2021-03-04".into(),
             6 => "true".into(),
+            _ if self.r.below(5) == 0 => match self.r.below(5) {
+                0 => format!("{}_{:03}", 1 + self.r.below(9), self.r.below(1000)),
+                1 => format!("0x{:x}", self.r.below(4096)),
+                2 => format!("0b{:b}", self.r.below(64)),
+                3 => format!("0o{:o}", self.r.below(512)),
+                _ => format!("{}_{}.{}", 1 + self.r.below(9), self.r.below(10), self.r.below(100)),
+            },
             _ => format!("{}", self.r.below(5)),
         }
     }
@@ -883,6 +890,84 @@ fn non_ascii_same_bytes(src: &str, r: &mut Rng) -> Option<String> {
     Some(out)
 }
 
+/// The same program with one literal spelled differently: an integer with `_` separators
+/// or in another radix (and back), a string in the other quote style. Tokens before the
+/// literal keep their offsets.
+fn respell(src: &str, r: &mut Rng) -> Option<String> {
+    let b = src.as_bytes();
+    let word = |c: u8| c.is_ascii_alphanumeric() || c == b'_';
+    // (start, end, replacement)
+    let mut cand: Vec<(usize, usize, String)> = Vec::new();
+    let mut i = 0;
+    while i < b.len() {
+        let c = b[i];
+        if c == b'\'' || c == b'"' {
+            // a simple one-line string without escapes or the other quote inside
+            if let Some(len) = b[i + 1..].iter().position(|x| *x == c || *x == b'\n') {
+                let j = i + 1 + len;
+                if j < b.len() && b[j] == c {
+                    let inner = &src[i + 1..j];
+                    let other = if c == b'"' { '\'' } else { '"' };
+                    let prefixed = i > 0 && (b[i - 1] == b's' || b[i - 1] == b'f' || b[i - 1] == b'r' || b[i - 1] == c);
+                    if !inner.contains(['\'', '"', '\\', '{', '}']) && !prefixed && !inner.is_empty() {
+                        cand.push((i, j + 1, format!("{other}{inner}{other}")));
+                    }
+                    i = j + 1;
+                    continue;
+                }
+            }
+            i += 1;
+            continue;
+        }
+        if c.is_ascii_digit() && (i == 0 || !(word(b[i - 1]) || b[i - 1] == b'.' || b[i - 1] == b'@' || b[i - 1] == b'-' && i > 1 && b[i - 2].is_ascii_digit())) {
+            let mut j = i;
+            while j < b.len() && (word(b[j])) {
+                j += 1;
+            }
+            let tok = &src[i..j];
+            let follows_ok = j >= b.len() || !(b[j] == b'.' || b[j] == b':' || b[j] == b'-' && j + 1 < b.len() && b[j + 1].is_ascii_digit());
+            if follows_ok {
+                let plain = tok.bytes().all(|x| x.is_ascii_digit());
+                let value: Option<u64> = if plain {
+                    tok.parse().ok()
+                } else if let Some(h) = tok.strip_prefix("0x") {
+                    u64::from_str_radix(h, 16).ok()
+                } else if let Some(h) = tok.strip_prefix("0b") {
+                    u64::from_str_radix(h, 2).ok()
+                } else if let Some(h) = tok.strip_prefix("0o") {
+                    u64::from_str_radix(h, 8).ok()
+                } else if tok.bytes().all(|x| x.is_ascii_digit() || x == b'_') && !tok.ends_with('_') && !tok.contains("__") {
+                    tok.replace('_', "").parse().ok()
+                } else {
+                    None
+                };
+                if let Some(v) = value.filter(|v| *v < 1_000_000_000) {
+                    if !plain {
+                        cand.push((i, j, v.to_string()));
+                    } else if v >= 1000 {
+                        let t = v.to_string();
+                        cand.push((i, j, format!("{}_{}", &t[..t.len() - 3], &t[t.len() - 3..])));
+                    } else {
+                        cand.push((i, j, format!("0x{v:x}")));
+                        cand.push((i, j, format!("0b{v:b}")));
+                        if v >= 10 {
+                            cand.push((i, j, format!("{}_{}", v / 10, v % 10)));
+                        }
+                    }
+                }
+            }
+            i = j.max(i + 1);
+            continue;
+        }
+        i += 1;
+    }
+    if cand.is_empty() {
+        return None;
+    }
+    let (a, e, rep) = cand[r.below(cand.len())].clone();
+    Some(format!("{}{}{}", &src[..a], rep, &src[e..]))
+}
+
 fn variant_once(src: &str, r: &mut Rng) -> String {
     if r.below(3) == 0 {
         // the same text moved to another offset: everything keyed by content but carrying
@@ -895,6 +980,12 @@ fn variant_once(src: &str, r: &mut Rng) -> String {
     }
     if r.below(4) == 0 {
         if let Some(out) = move_typo(src, r) {
+            return out;
+        }
+    }
+    if r.below(4) == 0 {
+        // the same value written another way (1000 / 1_000, 255 / 0xff, 'x' / "x")
+        if let Some(out) = respell(src, r) {
             return out;
         }
     }
@@ -1008,6 +1099,34 @@ pub fn gen_project(r: &mut Rng, corpus: &Corpus) -> Project {
     }
     if roots == 0 && r.below(2) == 0 {
         files.push(("".to_string(), format!("{} | take 1\n", refs[0])));
+    }
+    // A module that refers to two or more of its siblings (a diamond): named so that it
+    // sorts before them (forward references) or after them, in the root directory or below.
+    let mut hr = r.fork(0xd1a0);
+    if nmods >= 2 && hr.below(4) == 0 {
+        let a = hr.below(refs.len());
+        let mut b = hr.below(refs.len());
+        if b == a {
+            b = (a + 1) % refs.len();
+        }
+        let name = *hr.pick(&["aaa_report", "zz_report", "report"]);
+        let dir = *hr.pick(&["", "", "sub", "marts"]);
+        let path = if dir.is_empty() { format!("{name}.prql") } else { format!("{dir}/{name}.prql") };
+        if !files.iter().any(|(p, _)| *p == path) {
+            let body = match hr.below(3) {
+                0 => format!("let r = (from {} | join s = {} (==y) | select {{y}})\n", refs[a], refs[b]),
+                1 => format!("let r = (from {} | append {} | take 9)\n", refs[a], refs[b]),
+                _ => format!("let p = (from {} | select {{y}})\nlet q = (from {} | select {{y}})\nlet r = (from p | join q (==y))\n", refs[a], refs[b]),
+            };
+            files.push((path, body));
+            let modpath = if dir.is_empty() { name.to_string() } else { format!("{dir}.{name}") };
+            // the root may go through the hub
+            if hr.below(2) == 0 {
+                if let Some((_, root_body)) = files.iter_mut().find(|(p, _)| p == "Project.prql") {
+                    root_body.push_str(&format!("\nlet via_hub = (from {modpath}.r | take 1)\n"));
+                }
+            }
+        }
     }
     // Two files for one module: the library derives the module path by dropping the
     // extension, so `orders.prql` and `orders.sql` (or `orders`) both feed module `orders`.
